@@ -295,7 +295,8 @@ type vRef struct {
 	w      []pos.Weight
 	q      pos.Weight
 	frames []idx.Frame
-	n      int // number of events known so far
+	n      int   // number of events known so far
+	order  []int // validators (script indices) in canonical order; nil: index order
 }
 
 func (r *vRef) forkIn(a, v int) bool {
@@ -436,7 +437,11 @@ func (r *vRef) decideAll() (res []int) {
 					}
 					votes[rt][s] = v
 				}
-				for s := 0; s < V; s++ {
+				for k := 0; k < V; k++ {
+					s := k
+					if r.order != nil {
+						s = r.order[k]
+					}
 					if !decided[s].set {
 						break
 					}
